@@ -41,7 +41,8 @@ struct World {
         gs = new_TGswSample(gp); for (int p = 0; p < gp->kpl; p++) { for (int i = 0; i <= c.k; i++) fill32(gs->all_sample[p].a[i].coefsT, c.N, c.content, x); gs->all_sample[p].current_variance = 0.001 * (p + 1) / 3.0; }
         gk = new_TGswKey(gp); for (int i = 0; i < c.k; i++) { fill32(gk->key[i].coefs, c.N, c.content, x); if (c.content == 5) for (int j = 0; j < c.N; j++) gk->key[i].coefs[j] &= 1; }
         ks = new_LweKeySwitchKey(c.n + 1, c.t, c.basebit, lp);
-        { int tot = (c.n + 1) * c.t * (1 << c.basebit); for (int r = 0; r < tot; r++) { fill32(ks->ks0_raw[r].a, c.n, c.content, x); fill32(&ks->ks0_raw[r].b, 1, c.content, x); ks->ks0_raw[r].current_variance = 1e-3 * ((r * 7) % tot + 1) / 9.0; } }
+        { int tot = (c.n + 1) * c.t * (1 << c.basebit); for (int r = 0; r < tot; r++) { fill32(ks->ks0_raw[r].a, c.n, c.content, x); fill32(&ks->ks0_raw[r].b, 1, c.content, x); ks->ks0_raw[r].current_variance = 1e-3 * ((r * 7) % tot + 1) / 9.0; }
+          if (c.content % 2 == 0) ks->ks0_raw[(tot / (1 << c.basebit) / 2) * (1 << c.basebit)].current_variance = 0.5; /* even contents: the largest variance sits on a digit-value-0 row */ }
         bk = new_LweBootstrappingKey(c.t, c.basebit, lp, gp); fill_bk(bk, x);
         ps = new TFheGateBootstrappingParameterSet(c.t, c.basebit, lp, gp);
         gc = new_LweSample(lp); fill32(gc->a, c.n, c.content, x); fill32(&gc->b, 1, c.content, x); gc->current_variance = 0.04 / 3.0;
@@ -56,6 +57,7 @@ struct World {
     void fill_bk(LweBootstrappingKey *b, uint64_t &x) {
         int kN = c.k * c.N; int tot = kN * c.t * (1 << c.basebit);
         for (int r = 0; r < tot; r++) { fill32(b->ks->ks0_raw[r].a, c.n, c.content, x); fill32(&b->ks->ks0_raw[r].b, 1, c.content, x); b->ks->ks0_raw[r].current_variance = 1e-4 * ((r * 5) % tot + 1) / 7.0; }
+        if (c.content % 2 == 0) b->ks->ks0_raw[0].current_variance = 0.25;
         for (int i = 0; i < c.n; i++) for (int p = 0; p < gp->kpl; p++) { for (int q = 0; q <= c.k; q++) fill32(b->bk[i].all_sample[p].a[q].coefsT, c.N, c.content, x); b->bk[i].all_sample[p].current_variance = 1e-5 * ((i * gp->kpl + p) * 3 % (c.n * gp->kpl) + 1) / 11.0; }
     }
     ~World() { /* objects are small; the process is short-lived (forked per case) — leaks here are irrelevant to the properties checked */ }
